@@ -386,6 +386,15 @@ func ReadBack(c *Checker, d db.KeyValueStore, bc *blockchain.Blockchain, rec *Re
 	guard("lists", func() {
 		txs, err := core.GetTransactionsByBlockNumber(d, n)
 		c.eq("core.GetTransactionsByBlockNumber", err, normTxs(txs), wantTxs)
+		if err == nil && len(wantTxs) == 0 {
+			// an empty block reads as an empty list, not nil (the RPC layer serialises [] vs null)
+			c.n++
+			c.res.Hit("accessor:empty-block-lists")
+			rcs0, err0 := core.GetReceiptsByBlockNumber(d, n)
+			if txs == nil || (err0 == nil && len(wantRcs) == 0 && rcs0 == nil) {
+				c.fail("core.GetTransactionsByBlockNumber", "nil-list-for-empty-block", "", "an empty block's transaction / receipt list is read back as nil instead of empty")
+			}
+		}
 		txs, err = bc.TransactionsByBlockNumber(n)
 		c.eq("Reader.TransactionsByBlockNumber", err, normTxs(txs), wantTxs)
 		var it []core.Transaction
